@@ -6,6 +6,7 @@ running-moment clones with Chan's parallel formula (A9/A7).  Not decided: numeri
 """
 from __future__ import annotations
 
+from .. import flow
 from .. import terms as T
 from ..asyncrt import mentions
 from ..report import Check
@@ -53,6 +54,32 @@ def run(chk: Check, model):
                            "without squashing and in ClipActionWrapper the action passes clip(., low, high); the wrappers hand the transformed action to the inner step")
     chk.rule("C19.moments", "running moments (A9/A7): the three copies of the batch update equal Chan's parallel formula with batch statistics jnp.mean / jnp.var over axis 0 and "
                             "batch count = number of environments; the normalised value uses the updated state; the return estimate uses gamma * (1 - done)")
+    # ---------------------------------------------------------------- Environment.init
+    f_in = model.func("rl.Environment.init")
+    chk.used(f_in.qualname)
+    r_in = SymEval(model).run_function(f_in)
+    inits = [e for e in r_in.events if e.kind == "call" and e.name == "self.graph.init"]
+    resets = [e for e in r_in.events if e.kind == "call" and e.name == "self.graph.reset"]
+    oi = S("self.only_init")
+    # without graph.reset() the first partition has not run: the graph must be initialised *at* step 1, otherwise the first env.step is
+    # taken for the "before the first partition" case and drops the action
+    def _start_of(e):
+        return dict(e.kwargs).get("starting_step", T.NONE)
+    ok, detail, settings = True, [], []
+    for val, want_start in ((True, 1), (False, 0)):
+        live = [e for e in inits if T.assume(e.guard, oi, val) != T.FALSE]
+        rlive = [e for e in resets if T.assume(e.guard, oi, val) != T.FALSE]
+        if len(live) != 1:
+            ok = False
+            detail.append(f"only_init={val}: {len(live)} graph.init call(s)")
+            continue
+        st = T.assume(_start_of(live[0]), oi, val)
+        detail.append(f"only_init={val}: starting_step={T.show(st)}, {len(rlive)} graph.reset call(s)")
+        ok = ok and T.const_value(st) == want_start and len(rlive) == (0 if val else 1) and (val or (rlive[0].args and T.assume(rlive[0].args[0], oi, val) == T.assume(live[0].term, oi, val)))
+        settings.append(({k: T.assume(v, oi, val) for k, v in live[0].kwargs if k != "starting_step"}, tuple(T.assume(a_, oi, val) for a_ in live[0].args)))
+    chk.add("C19.env", "init: only_init starts at step 1, otherwise init at step 0 followed by graph.reset", bool(ok), "; ".join(detail), chk.loc(f_in))
+    same = len(settings) == 2 and settings[0] == settings[1]
+    chk.add("C19.env", "init: both modes initialise the graph with the same settings", bool(same), "params / starting_eps / randomize_eps / order / rng must be passed identically in both modes", chk.loc(f_in))
     # ---------------------------------------------------------------- Environment.step
     fi, r = _r(model, "rl.Environment.step")
     chk.used(fi.qualname)
